@@ -45,7 +45,12 @@ def build(need_bins=False):
     with open(os.path.join(WORK, ".build.lock"), "w") as lk:
         fcntl.flock(lk, fcntl.LOCK_EX)
         t0 = time.time()
-        r = sh(["cargo", "build", "--release", "--offline"], cwd=HARNESS, timeout=1800)
+        r = sh(["cargo", "build", "--release", "--offline", "--bin", "hctl-conf"], cwd=HARNESS, timeout=1800)
+        if r.returncode != 0 and ("canonization_export" in r.stderr or "get_canonical" in r.stderr):
+            # the private canonisation functions changed their signatures: build without the part that calls them
+            # (C09's canonical-form judgement becomes unavailable, every other check is unaffected)
+            log("NOTE harness built without the canonisation hook (private signatures changed)")
+            r = sh(["cargo", "build", "--release", "--offline", "--bin", "hctl-conf", "--no-default-features"], cwd=HARNESS, timeout=1800)
         if r.returncode != 0:
             raise ToolError("harness build failed:\n" + r.stderr[-3000:])
         if need_bins:
@@ -54,6 +59,22 @@ def build(need_bins=False):
             if r.returncode != 0:
                 raise ToolError("repository binaries build failed:\n" + r.stderr[-3000:])
         return time.time() - t0
+
+
+PRIMS_BIN = os.path.join(HARNESS, "target", "release", "hctl-prims")
+
+
+def build_prims():
+    """The primitive-level harness is a separate binary: it calls PRIVATE functions of the crate through the
+    cfg(hctl_verif) re-export, so it stops compiling when one of their signatures changes.  Returns None when
+    it was built, else the compiler's message (the caller reports the replay as unavailable, nothing else fails)."""
+    with open(os.path.join(WORK, ".build.lock"), "w") as lk:
+        fcntl.flock(lk, fcntl.LOCK_EX)
+        r = sh(["cargo", "build", "--release", "--offline", "--bin", "hctl-prims"], cwd=HARNESS, timeout=1800)
+        if r.returncode != 0:
+            errs = [l for l in r.stderr.splitlines() if l.startswith("error")]
+            return (errs[0] if errs else r.stderr[-300:])[:300]
+    return None
 
 
 def workdir(name):
